@@ -3,6 +3,7 @@ import LyModel.XmlTree.Spec
 import LyModel.XmlTree.Opaq
 import LyModel.XmlTree.OpaqCheck
 import LyModel.XmlTree.DataCheck
+import LyModel.XmlTree.SpecScope
 /-! driver ops of component `xmltree`: `print <rows-hex>` — rows as printed by harness `api_rt` (`view`);
     `opaqprint <view-hex>` — the opaque-node view of harness op `opaqview`, printed by the v2 model with `Fixes.current`. -/
 namespace LyModel.XmlTree.Drv
@@ -329,9 +330,13 @@ def handle (op : String) (args : List String) : String :=
     match Hex.dec h with
     | none => "err BadHex"
     | some b =>
-      match XmlDoc.parseDoc b with
-      | none => "err NotWellFormed"
-      | some es => "ok " ++ (if es.isEmpty then "-" else " ".intercalate (dumpElems 0 es))
+      -- the scoped reader (`SpecScope.lean`) must agree with the plain one on every document, well-formed or not
+      match XmlDoc.parseDoc b, XmlDoc.parseDocS b with
+      | none, none => "err NotWellFormed"
+      | some es, some ss =>
+        if dumpElems 0 es == dumpElems 0 (XmlDoc.eraseL ss) then "ok " ++ (if es.isEmpty then "-" else " ".intercalate (dumpElems 0 es))
+        else "err ScopedReaderDiffers"
+      | _, _ => "err ScopedReaderDiffers"
   | _, _ => "err BadOp"
 
 end LyModel.XmlTree.Drv
